@@ -1382,13 +1382,25 @@ class Store:
         self.conds = list(conds or [])     # cmp atoms known to hold
         self.events = list(events or [])
         self.havoc = {}                    # access path -> token: everything below was changed by an unknown call
+        self.alias = {}                    # variable (3-tuple path) of an inlined callee's reference parameter -> caller's path
+        self.depth = 0
 
     def clone(self):
         c = Store(self.tu, self.vals, self.copies, self.conds, self.events)
         c.havoc = dict(self.havoc)
+        c.alias = dict(self.alias)
+        c.depth = self.depth
         return c
 
+    def norm(self, p):
+        hops = 0
+        while p is not None and len(p) >= 3 and p[:3] in self.alias and hops < 4:
+            p = self.alias[p[:3]] + p[3:]
+            hops += 1
+        return p
+
     def clobber(self, p, token):
+        p = self.norm(p)
         for k in [k for k in self.vals if k[:len(p)] == p]:
             del self.vals[k]
         for k in [k for k in self.copies if k[:len(p)] == p]:
@@ -1396,6 +1408,7 @@ class Store:
         self.havoc[p] = token
 
     def read(self, p):
+        p = self.norm(p)
         if p in self.vals:
             return self.vals[p]
         for k in range(len(p), 2, -1):
@@ -1434,6 +1447,7 @@ class Store:
         return lin(self.tu, e, self.env())
 
     def write(self, p, v):
+        p = self.norm(p)
         for k in [k for k in self.vals if k[:len(p)] == p and k != p]:
             del self.vals[k]
         for k in [k for k in self.copies if k[:len(p)] == p]:
@@ -1441,6 +1455,7 @@ class Store:
         self.vals[p] = v
 
     def copy_struct(self, dst, src):
+        dst, src = self.norm(dst), self.norm(src)
         snap = self.clone()
         for k in [k for k in self.havoc if k[:len(dst)] == dst]:
             del self.havoc[k]
@@ -1613,15 +1628,16 @@ def sym_paths(tu, g, start, stops, st0, on_call=None, limit=256):
         blk = g.blocks[bid]
         if blk.noret:
             continue           # ends in a noreturn call (failed assert / abort / throw): control never comes back
-        st = st.clone()
-        handled = set()
+        states = [st.clone()]
         for e in blk.el:
             if e[0] != 'S':
                 continue
             n = tu.node(e[1])
             if n is None:
                 continue
-            if n.get('kind') in CALLS:
+            plain_call = n.get('kind') in CALLS and not (n.get('kind') == 'CXXOperatorCallExpr' and
+                                                         tu.sd(n).get('q', '').endswith('::operator='))
+            if plain_call:
                 # a call that initialises a declared variable is processed with its DeclStmt
                 p_ = n
                 isinit = False
@@ -1637,25 +1653,107 @@ def sym_paths(tu, g, start, stops, st0, on_call=None, limit=256):
                         break
                 if isinit:
                     continue
-            sym_step(tu, st, n, on_call)
+            nxt = []
+            for st1 in states:
+                if plain_call:
+                    handled = on_call(st1, n, ('v', 'tmp:' + n['id'], 'tmp')) if on_call is not None else False
+                    if handled:
+                        nxt.append(st1)
+                        continue
+                    inl = inline_void_call(tu, st1, n, on_call)
+                    if inl is not None:
+                        nxt += inl
+                        if len(nxt) > limit:
+                            raise ValueError('too many paths')
+                        continue
+                    clobber_call_args(tu, st1, n)
+                    nxt.append(st1)
+                else:
+                    sym_step(tu, st1, n, on_call)
+                    nxt.append(st1)
+            states = nxt
         succ = [s for s in blk.succ]
-        if blk.cond is not None and len(succ) == 2:
-            a = bool_atom_any(tu, tu.node(blk.cond), st.env())
-            for si, s in enumerate(succ):
-                if s is None:
-                    continue
-                st2 = st.clone()
-                if a is not None and a[0] == 'cmp':
-                    st2.conds.append(a if si == 0 else negate_cmp(a))
-                elif a is not None and a[0] == 'and' and si == 0:
-                    st2.conds += [x for x in a[1] if x[0] == 'cmp']
-                st2.events.append(('branch', blk.cond, si == 0))
-                stack.append((s, st2, onpath | {bid}))
-        else:
-            for s in succ:
-                if s is not None:
-                    stack.append((s, st, onpath | {bid}))
+        for st in states:
+            if blk.cond is not None and len(succ) == 2:
+                a = bool_atom_any(tu, tu.node(blk.cond), st.env())
+                for si, s in enumerate(succ):
+                    if s is None:
+                        continue
+                    st2 = st.clone()
+                    if a is not None and a[0] == 'cmp':
+                        st2.conds.append(a if si == 0 else negate_cmp(a))
+                    elif a is not None and a[0] == 'and' and si == 0:
+                        st2.conds += [x for x in a[1] if x[0] == 'cmp']
+                    st2.events.append(('branch', blk.cond, si == 0))
+                    stack.append((s, st2, onpath | {bid}))
+            else:
+                for s in succ:
+                    if s is not None:
+                        stack.append((s, st, onpath | {bid}))
     return out
+
+
+def clobber_call_args(tu, st, n):
+    """an unknown call may change what it is given by non-const reference or by address"""
+    s_, obj, args = tu.call_parts(n)
+    cf_params = re.match(r'.*?\((.*)\)', s_.get('fty', '') or '')
+    ptypes = [x.strip() for x in cf_params.group(1).split(', ')] if cf_params else []
+    for ai, a_ in enumerate(args):
+        pt = ptypes[ai] if ai < len(ptypes) else ''
+        a0 = leaf(tu, a_)
+        tgt = None
+        if a0 is not None and a0.get('kind') == 'UnaryOperator' and a0.get('opcode') == '&':
+            tgt = access_path(tu, tu.kids(a0)[0])
+        elif pt.endswith('&') and not pt.startswith('const '):
+            tgt = access_path(tu, a_)
+        if tgt is not None and tgt[0] == 'v':
+            st.clobber(tgt, n['id'])
+
+
+def inline_void_call(tu, st, n, on_call):
+    """Replay a call of a loop-free void helper of the scheduler at the call site: by-value parameters are copied,
+    reference parameters alias the caller's objects; one resulting store per path of the helper.  None if the callee is
+    not such a helper."""
+    cf = tu.callee_fn(n)
+    if cf is None or cf.get('virt') or cf['dep'] or tu.cfg(cf) is None or st.depth >= 3:
+        return None
+    q = cf['q']
+    if not (q.startswith('enki::TaskScheduler::') or q.startswith('(anonymous namespace)::')) or not cf.get('fty', '').startswith('void'):
+        return None
+    g2 = tu.cfg(cf)
+    if g2.back_edges():
+        return None
+    s_, obj, args = tu.call_parts(n)
+    if len(args) != len(cf['params']):
+        return None
+    st2 = st.clone()
+    st2.depth += 1
+    for p_, a_ in zip(cf['params'], args):
+        pt = (p_['ct'] or '').strip()
+        pp = param_path(p_)
+        if pt.endswith('&'):
+            src = access_path(tu, a_) or struct_source(tu, a_)
+            if src is None:
+                return None
+            st2.alias[pp] = st.norm(src)
+        elif irange(pt) is not None or clean_type(pt).endswith('*') or clean_type(pt) == 'bool':
+            st2.write(pp, st.ev(a_))
+        else:
+            src = struct_source(tu, a_)
+            if src is None:
+                return None
+            st2.copy_struct(pp, st.norm(src))
+    try:
+        outs = sym_paths(tu, g2, g2.entry, set(), st2, on_call)
+    except ValueError:
+        return None
+    res = []
+    for stop, st3 in outs:
+        for p_ in cf['params']:
+            st3.alias.pop(param_path(p_), None)
+        st3.depth = st.depth
+        res.append(st3)
+    return res
 
 
 def inlinable(tu, call):
@@ -1826,6 +1924,171 @@ def task_fn_summaries(tu):
     return out
 
 
+def ref_target(tu, e, depth=0):
+    """access path of the object an lvalue expression designates, following local references to what they were bound to"""
+    p = obj_path(tu, e)
+    if p is None or depth > 3 or p[0] != 'v' or len(p) != 3:
+        return p
+    vd = tu.node(p[1])
+    ty = (vd.get('type') or {}) if vd is not None else {}
+    if vd is not None and vd.get('kind') == 'VarDecl' and (ty.get('desugaredQualType') or ty.get('qualType', '')).rstrip().endswith('&') \
+            and tu.kids(vd):
+        return ref_target(tu, tu.kids(vd)[0], depth + 1)
+    return p
+
+
+def functor_address(tu, e):
+    """access path of X if e is the address of X (&X, std::addressof(X), through pointer casts), else None"""
+    n = leaf(tu, e)
+    hops = 0
+    while n is not None and hops < 6:
+        k = n.get('kind')
+        ks = tu.kids(n)
+        if k in ('CXXReinterpretCastExpr', 'CXXConstCastExpr') and ks:
+            n = leaf(tu, ks[-1])
+        elif k == 'UnaryOperator' and n.get('opcode') == '&' and ks:
+            return ref_target(tu, ks[0])
+        elif k == 'CallExpr' and tu.sd(n).get('q') in ('std::addressof', 'std::__addressof') and len(ks) == 2:
+            return ref_target(tu, ks[1])
+        else:
+            return None
+        hops += 1
+    return None
+
+
+def function_ref(tu, e):
+    """the function (entry of tu.functions) an expression names: &f, f (decayed), else None"""
+    n = leaf(tu, e)
+    if n is not None and n.get('kind') == 'UnaryOperator' and n.get('opcode') == '&' and tu.kids(n):
+        n = leaf(tu, tu.kids(n)[0])
+    if n is not None and n.get('kind') == 'DeclRefExpr':
+        d = n.get('referencedDecl', {})
+        if d.get('kind') in ('FunctionDecl', 'CXXMethodDecl'):
+            return tu.functions.get(d.get('id')) or tu.functions.get(tu.sd(n).get('def')) or tu.functions.get(tu.sd(n).get('d'))
+    return None
+
+
+def check_trampoline_execute(ctx, tu, f, g, ci, tp, inst, loc, key):
+    """ExecuteRange of a type-erased task class: it must hand exactly its partition [tp.start, tp.end) and the stored functor
+    address to the function pointer stored at construction, once; each function bound there must run the canonical loop over
+    [begin, end) calling the functor (recovered from the pointer with its real type) once per index."""
+    R1 = 'R-C01-1'
+    n_ok = 0
+    tm, fm = ci['tramp_member'], ci['fun_member']
+    calls = []
+    for b, i, n in g.stmts():
+        if n.get('kind') == 'CallExpr' and tu.kids(n) and access_path(tu, tu.kids(n)[0]) == ('this', tm):
+            calls.append(n)
+    if len(calls) != 1:
+        ctx.undecided(R1, inst, 'ExecuteRange calls the stored function pointer `%s` %d times' % (tm, len(calls)), loc)
+        return 0
+    c = calls[0]
+    args = tu.kids(c)[1:]
+    roles = {}
+    for ai, a_ in enumerate(args):
+        ap = access_path(tu, a_)
+        if ap == ('this', fm):
+            roles['fun'] = ai
+        elif ap == tp + ('start',):
+            roles['start'] = ai
+        elif ap == tp + ('end',):
+            roles['end'] = ai
+    if set(roles) != {'fun', 'start', 'end'} or len(args) != 3:
+        got = ', '.join(tu.show(a_) for a_ in args)
+        if 'fun' in roles and all((lin(tu, a_) - Lin.atom(('p', tp + (nm,)))).is_const() for a_, nm in
+                                  ((args[roles.get('start', 1)], 'start'), (args[roles.get('end', 2)], 'end'))
+                                  if irange(tu.sd(a_).get('ct')) is not None) and len(args) == 3:
+            ctx.violation(R1, inst, 'ExecuteRange hands (%s) to the stored function instead of (functor, tp.start, tp.end): indices of '
+                          'the partition are skipped or run twice' % got, tu.loc(c), key=key(R1, 'trampoline-range'))
+        else:
+            ctx.undecided(R1, inst, 'arguments (%s) of the call through `%s` are not (functor, tp.start, tp.end)' % (got, tm), loc)
+        return 0
+    ex, _ = count_paths(tu, g, {c['id']: 1}, None, 'P')
+    pr = once_verdict(ex)
+    if pr:
+        ctx.violation(R1, inst, 'ExecuteRange does not call the stored function exactly once on every path', loc, key=key(R1, 'loop-body'))
+        return 0
+    ctx.ok(R1, inst, 'hands (functor address, tp.start, tp.end) to the function stored at construction, once', loc)
+    n_ok += 1
+    # ---- every function bound at a construction site
+    for info in ci.get('infos', []):
+        tf = info.get('tramp_fn')
+        tinst = '[INTERNAL] %s<%s>' % ((tf or {}).get('q', '?').replace(NS, '').replace('detail::', ''), short_type(info['f']))
+        if tf is None or tu.cfg(tf) is None:
+            ctx.undecided(R1, tinst, 'the function bound to `%s` at %s has no body in this unit' % (tm, tu.loc(info['ce'])), loc)
+            continue
+        tg = tu.cfg(tf)
+        tfile, tname = tu.fn_file(tf), tf['q'].split('::')[-1]
+        tkey = lambda rule, d: '%s|%s|%s|%s' % (rule, tfile, tname, d)
+        tps = tf['params']
+        if len(tps) != 3 or roles['fun'] >= 3:
+            ctx.undecided(R1, tinst, 'unexpected parameter list of the range function', tu.fn_loc(tf))
+            continue
+        pfun, pbeg, pend = (param_path(tps[roles['fun']]), param_path(tps[roles['start']]), param_path(tps[roles['end']]))
+        # the functor: a local reference (or pointer) obtained from the untyped pointer by casts
+        fun_paths = set()
+        ftype = None
+        for n in fn_stmts(tu, tf):
+            if n.get('kind') == 'VarDecl' and tu.kids(n):
+                init = tu.kids(n)[0]
+                x = leaf(tu, init)
+                if x is not None and x.get('kind') == 'UnaryOperator' and x.get('opcode') == '*' and tu.kids(x):
+                    src = tu.kids(x)[0]
+                    hops = 0
+                    cast_t = None
+                    while src is not None and hops < 6:
+                        k_ = src.get('kind')
+                        if k_ in ('CXXStaticCastExpr', 'CXXReinterpretCastExpr', 'CXXConstCastExpr', 'CStyleCastExpr',
+                                  'ImplicitCastExpr', 'ParenExpr') and tu.kids(src):
+                            if k_ in ('CXXStaticCastExpr', 'CXXReinterpretCastExpr', 'CStyleCastExpr') and cast_t is None:
+                                cast_t = (src.get('type') or {}).get('qualType')
+                                cast_t = tu.sd(src).get('ct') or cast_t
+                            src = tu.kids(src)[-1]
+                            hops += 1
+                        else:
+                            break
+                    if src is not None and access_path(tu, src) == pfun:
+                        fun_paths.add(('v', n['id'], n.get('name')))
+                        ftype = cast_t
+        if not fun_paths:
+            ctx.undecided(R1, tinst, 'the range function does not recover the functor from its pointer parameter in a recognised way',
+                          tu.fn_loc(tf))
+            continue
+        want_t = clean_type(info.get('fun_type') or '')
+        got_t = clean_type((ftype or '').rstrip('*').strip()) if ftype else None
+        if got_t is not None and want_t and got_t != want_t:
+            ctx.violation(R1, tinst, 'the range function casts the functor pointer to `%s`, but the object behind it has type `%s`'
+                          % (got_t, want_t), tu.fn_loc(tf), key=tkey(R1, 'trampoline-type'))
+            continue
+        li = analyse_counting_loop(tu, tf, tg, fun_paths, Lin.atom(('p', pbeg)), Lin.atom(('p', pend)), allow_ne=True)
+        if li is None:
+            ctx.violation(R1, tinst, 'the range function has no loop over [begin, end): at most one index of each partition runs',
+                          tu.fn_loc(tf), key=tkey(R1, 'no-loop'))
+            continue
+        for u in sorted(set(li.undecided)):
+            ctx.undecided(R1, tinst, u, tu.fn_loc(tf))
+        for k_, t_, n_ in ([] if li.undecided else li.problems):
+            ctx.violation(R1, tinst, t_, tu.loc(n_), key=tkey(R1, 'loop-' + k_))
+        if li.decl_stmt and not li.undecided:
+            ex2, _ = count_paths(tu, tg, {li.decl_stmt: 'loop'}, None, 'P')
+            for k_, t_ in once_verdict(ex2):
+                ctx.violation(R1, tinst, t_.replace('hands the range to the backend', 'runs the partition loop'), tu.fn_loc(tf),
+                              key=tkey(R1, k_))
+        if not li.undecided and not li.problems:
+            ctx.ok(R1, tinst, 'canonical loop over [begin, end) calling the functor (recovered with its own type) once per index',
+                   tu.fn_loc(tf))
+            n_ok += 1
+        if li.arg is not None and li.call is not None and not li.undecided:
+            lf, ch = cast_chain(tu, li.arg)
+            callee = tu.callee_fn(li.call)
+            ptype = clean_type(callee['params'][0]['ct']) if callee and callee.get('params') else (ch[-1] if ch else None)
+            if ch and ptype and ch[-1] != ptype:
+                ch = ch + [ptype]
+            M = irange(ptype)[1] if irange(ptype) else None
+            info['index_chain'] = (ch, M, tu.loc(li.arg), tinst, tfile, tname)
+    return n_ok
+
+
 def check_internal(ctx, tu, chains, summaries=None):
     summaries = summaries or {}
     R1, R2, R3 = 'R-C01-1', 'R-C01-2', 'R-C01-3'
@@ -1872,12 +2135,17 @@ def check_internal(ctx, tu, chains, summaries=None):
         bad = []
         # constructor arguments
         cargs = tu.kids(ce)
-        cnt_i = fun_i = None
+        cnt_i = fun_i = tramp_i = None
+        tramp_fn = None
         for ai, a_ in enumerate(cargs):
-            if lin(tu, a_) == Lin.atom(('p', ppath)):
+            if irange(tu.sd(a_).get('ct')) is not None and lin(tu, a_) == Lin.atom(('p', ppath)):
                 cnt_i = ai
             elif obj_path(tu, a_) == fpath:
                 fun_i = ai
+            elif functor_address(tu, a_) == fpath:
+                fun_i = ai               # type-erased: the address of the functor
+            elif function_ref(tu, a_) is not None:
+                tramp_i, tramp_fn = ai, function_ref(tu, a_)   # a function that knows the functor's type (trampoline)
         if cnt_i is None:
             ll = [lin(tu, a_) for a_ in cargs if irange(tu.sd(a_).get('ct')) is not None]
             if ll and (ll[0] - Lin.atom(('p', ppath))).is_const():
@@ -1985,6 +2253,7 @@ def check_internal(ctx, tu, chains, summaries=None):
         for s_ in sched:
             sg_here |= set(seen.get(s_['id'], ()))
         internal_by_fn[f['id']] = dict(f=f, inst=inst, ctor=ctor, cnt_i=cnt_i, fun_i=fun_i, chain=ch_here, ce=ce,
+                                       tramp_i=tramp_i, tramp_fn=tramp_fn, fun_type=clean_type(pf['ct']),
                                        param_guard=range_for_signs(clean_type(pn['ct']), sg_here or set('NZP')),
                                        param_type=clean_type(pn['ct']), param_name=pn['name'])
     ctx.floor(R1 + '(internal)', n_int, 8, 'parallel_for_internal instantiations: one per index type of the driver')
@@ -2005,6 +2274,7 @@ def check_internal(ctx, tu, chains, summaries=None):
         cparams = ctor['params']
         base_chain = None
         fun_member = None
+        tramp_member = None
         size_ok = False
         for blk, i, e in g.elements():
             if e[0] != 'I':
@@ -2053,6 +2323,9 @@ def check_internal(ctx, tu, chains, summaries=None):
                     sz = sz + [ft]
                 base_chain = ch + sz[1:] if sz and ch and sz[0] == ch[-1] else ch + sz
                 size_ok = True
+            elif e[3] not in ('<base>',) and init is not None and info.get('tramp_i') is not None and \
+                    info['tramp_i'] < len(cparams) and obj_path(tu, init) == param_path(cparams[info['tramp_i']]):
+                tramp_member = e[3]
             elif e[3] not in ('<base>',) and init is not None and info['fun_i'] is not None:
                 if obj_path(tu, init) == param_path(cparams[info['fun_i']]):
                     fun_member = e[3]
@@ -2060,7 +2333,9 @@ def check_internal(ctx, tu, chains, summaries=None):
             ctx.ok(R1, inst, 'm_SetSize <- count parameter, member `%s` <- functor parameter' % fun_member, loc)
         elif not fun_member:
             ctx.undecided(R1, inst, 'no member of the task class is bound to the functor parameter', loc)
-        ctor_info[ctor.get('recid')] = dict(fun_member=fun_member, base_chain=base_chain, info=info)
+        prev = ctor_info.get(ctor.get('recid'), {}).get('infos', [])
+        ctor_info[ctor.get('recid')] = dict(fun_member=fun_member, base_chain=base_chain, info=info, tramp_member=tramp_member,
+                                            infos=prev + [info])
         info['base_chain'] = base_chain
         info['fun_member'] = fun_member
     # ---- ExecuteRange of the local task classes
@@ -2083,6 +2358,9 @@ def check_internal(ctx, tu, chains, summaries=None):
                           key=key(R1, 'not-override'))
         tp = param_path(f['params'][0])
         if not ci['fun_member']:
+            continue
+        if ci.get('tramp_member'):
+            n_exec += check_trampoline_execute(ctx, tu, f, g, ci, tp, inst, loc, key)
             continue
         fun_paths = {('this', ci['fun_member'])}
         li = analyse_counting_loop(tu, f, g, fun_paths, Lin.atom(('p', tp + ('start',))), Lin.atom(('p', tp + ('end',))),
@@ -2315,7 +2593,7 @@ def rc_helper(tu, cf):
         return _RC_HELPERS[key_]
     _RC_HELPERS[key_] = None
     g = tu.cfg(cf)
-    if g is None or cf.get('virt'):
+    if g is None or cf.get('virt') or g.back_edges():
         return None
     evs = {}
     for b, i, n in g.stmts():
@@ -2323,6 +2601,18 @@ def rc_helper(tu, cf):
             ev = running_count_event(tu, n, follow=False)
             if ev is not None:
                 evs[n['id']] = ev
+        if n.get('kind') in CALLS and n.get('kind') != 'CXXOperatorCallExpr' and tu.sd(n).get('q') != 'enki::AtomicAdd':
+            cf2 = tu.callee_fn(n)
+            if cf2 is not None and tu.cfg(cf2) is not None and cf2['id'] != cf['id'] and \
+                    (cf2.get('rec') == 'enki::TaskScheduler' or cf2['q'].startswith('(anonymous namespace)::')):
+                if running_count_event(tu, n) is not None or any(
+                        tu.sd(x).get('q') == 'enki::ITaskSet::ExecuteRange' for b2, i2, x in tu.cfg(cf2).stmts() if x.get('kind') in CALLS):
+                    return None
+        if n.get('kind') in CALLS:
+            q_ = tu.sd(n).get('q', '')
+            if q_ == 'enki::ITaskSet::ExecuteRange' or q_.endswith(('::WriterTryWriteFront', '::WriterTryReadFront', '::ReaderTryReadBack')) \
+                    or q_ == TS + 'SplitAndAddTask':
+                return None          # more than a count helper: it is replayed at the call site instead
     if not evs:
         return None
     res = 'und'
@@ -2345,7 +2635,8 @@ def running_count_event(tu, n, follow=True):
     if follow and n.get('kind') in CALLS and tu.sd(n).get('q') != 'enki::AtomicAdd':
         cf = tu.callee_fn(n)
         if cf is not None and tu.cfg(cf) is not None and not cf.get('virt') and \
-                tu.sd(n).get('q', '') not in (TS + 'SplitAndAddTask', TS + 'TryRunTask', TS + 'AddTaskSetToPipe'):
+                tu.sd(n).get('q', '') not in (TS + 'SplitAndAddTask', TS + 'TryRunTask', TS + 'AddTaskSetToPipe') and \
+                tu.sd(n).get('q', '') not in RANGE_CONSUMERS:
             h = rc_helper(tu, cf)
             if h == 'und':
                 return ('rmw', None)
@@ -2807,9 +3098,10 @@ def make_split_summary(tu, split_fn):
                 vals = (st.read(op) if op else None, st.read(src + ('start',)), st.read(src + ('end',)))
             st.events.append(('exec', c['id'], vals))
             return True
-        if q == TS + 'SplitAndAddTask':
+        if q == TS + 'SplitAndAddTask' or q in RANGE_CONSUMERS:
             s_, obj, args = call_args(tu, c)
-            src = struct_source(tu, args[1]) if len(args) > 1 else None
+            ai_ = RANGE_CONSUMERS.get(q, 1)
+            src = struct_source(tu, args[ai_]) if len(args) > ai_ else None
             vals = None
             if src is not None:
                 vals = (st.read(src + ('pTask',)), st.read(src + ('partition', 'start')), st.read(src + ('partition', 'end')))
@@ -2965,24 +3257,67 @@ def loop_invariant_store(tu, g, H, L, split_fn):
     return st
 
 
+RANGE_CONSUMERS = {}     # qualified name -> index of the SubTaskSet parameter; functions that are handed a whole remaining range
+
+
+def subtask_param(f):
+    """(index of the by-value SubTaskSet parameter, index of the following integer range parameter) or None"""
+    ps = f.get('params', [])
+    for k, p_ in enumerate(ps):
+        if clean_type(p_['ct']) in ('enki::SubTaskSet', 'SubTaskSet') and not (p_['ct'] or '').rstrip().endswith('&'):
+            for k2 in range(k + 1, len(ps)):
+                if irange(ps[k2]['ct']) is not None:
+                    return k, k2
+    return None
+
+
+def find_range_consumers(tu):
+    """SplitAndAddTask and every other scheduler member of the same kind: by-value sub task + split range, one loop"""
+    RANGE_CONSUMERS.clear()
+    out = []
+    for f in tu.functions.values():
+        if f['dep'] or f.get('rec') != 'enki::TaskScheduler' or tu.cfg(f) is None:
+            continue
+        sp = subtask_param(f)
+        if sp is None or len({t for s_, t in tu.cfg(f).back_edges()}) != 1:
+            continue
+        RANGE_CONSUMERS[f['q']] = sp[0]
+        out.append(f)
+    return out
+
+
 def check_split_and_add(ctx, tu, split_fn):
-    R = 'R-C01-6'
     fs = tu.fns(q=TS + 'SplitAndAddTask', dep=False)
-    inst = '[INTERNAL] TaskScheduler::SplitAndAddTask'
     if not fs or tu.cfg(fs[0]) is None:
         ctx.broken('R-C01-6: enki::TaskScheduler::SplitAndAddTask not found')
         return
-    f = fs[0]
+    cons = find_range_consumers(tu)
+    takes = False
+    for f in sorted(cons, key=lambda x: x['q'] != TS + 'SplitAndAddTask'):
+        r = check_split_fn(ctx, tu, f, split_fn)
+        if f['q'] == TS + 'SplitAndAddTask':
+            takes = r
+    if TS + 'SplitAndAddTask' not in RANGE_CONSUMERS:
+        ctx.undecided('R-C01-6', '[INTERNAL] TaskScheduler::SplitAndAddTask', 'not of the form (thread, sub task by value, split range) '
+                      'with one splitting loop', tu.fn_loc(fs[0]))
+    return takes
+
+
+def check_split_fn(ctx, tu, f, split_fn):
+    R = 'R-C01-6'
+    fname = f['q'].replace('enki::', '')
+    inst = '[INTERNAL] ' + fname
     g = tu.cfg(f)
     loc = tu.fn_loc(f)
-    key = lambda d: '%s|%s|TaskScheduler::SplitAndAddTask|%s' % (R, F_ENKI, d)
+    key = lambda d: '%s|%s|%s|%s' % (R, F_ENKI, fname, d)
     heads = sorted({t for s, t in g.back_edges()})
     if len(heads) != 1:
         ctx.undecided(R, inst, '%d loops (expected the one splitting loop)' % len(heads), loc)
         return
     H = g.blocks[heads[0]]
-    sub = param_path(f['params'][1])
-    rsp = param_path(f['params'][2])
+    sk, rk = subtask_param(f)
+    sub = param_path(f['params'][sk])
+    rsp = param_path(f['params'][rk])
     # loop condition: start != end  (or start < end)
     a = bool_atom(tu, tu.node(H.cond)) if H.cond else None
     s_at, e_at = Lin.atom(('p', sub + ('partition', 'start'))), Lin.atom(('p', sub + ('partition', 'end')))
@@ -3014,16 +3349,26 @@ def check_split_and_add(ctx, tu, split_fn):
             if p_ not in reach_head:
                 reach_head.add(p_)
                 work.append(p_)
+    # blocks reachable from the loop head (the loop and what follows it)
+    after = set()
+    work = [H.id]
+    while work:
+        x = work.pop()
+        if x in after:
+            continue
+        after.add(x)
+        work += [y for y in g.blocks[x].succ if y is not None]
     late_ops = []
     for bid in set(g.blocks) - L:
         for e in g.blocks[bid].el:
             n = tu.node(e[1]) if e[0] == 'S' else None
-            if n is not None and n.get('kind') in CALLS and (running_count_event(tu, n) or
+            if n is not None and n.get('kind') in CALLS and (running_count_event(tu, n) or tu.sd(n).get('q') in RANGE_CONSUMERS or
                                                              tu.sd(n).get('q', '').endswith(('WriterTryWriteFront', 'ExecuteRange'))):
                 if bid in reach_head:
                     ctx.undecided(R, inst, 'running-count / pipe operation before the splitting loop at %s' % tu.loc(n), loc)
                     return
-                late_ops.append(n)
+                if bid in after:
+                    late_ops.append(n)
     s0 = Lin.atom(('init', sub + ('partition', 'start')))
     e0 = Lin.atom(('init', sub + ('partition', 'end')))
     p0 = Lin.atom(('init', sub + ('pTask',)))
@@ -3031,6 +3376,45 @@ def check_split_and_add(ctx, tu, split_fn):
     bad = []
     und = []
     borrows = [False]
+    # ---- paths that return without entering the loop (e.g. a special case handed to another function): whatever they
+    #      consume must be exactly the range the function was given
+    try:
+        early = sym_paths(tu, g, g.entry, {H.id}, Store(tu), on_call)
+    except ValueError as e:
+        early = None
+        und.append('the code in front of the splitting loop cannot be followed (%s)' % e)
+    for stop, st in (early or []):
+        ev = [e for e in st.events if e[0] != 'branch']
+        if stop == H.id:
+            if any(e[0] in ('pub', 'exec', 'requeue', 'inc', 'dec', 'rmw') for e in ev):
+                und.append('partitions are consumed before the splitting loop is entered')
+            continue
+        tb = check_tokens(ctx, tu, inst, loc, key, ev, lambda pid: pub_outcome(tu, st.events, pid), [])
+        bad += tb
+        pieces = []
+        for e in ev:
+            if e[0] in ('exec', 'requeue') or (e[0] == 'pub' and pub_outcome(tu, st.events, e[1])):
+                pieces.append(e[2])
+        if any(p_ is None or None in p_ for p_ in pieces):
+            und.append('a partition consumed in front of the loop is not a local structure')
+            continue
+        cur, rest, okc = s0, list(pieces), True
+        while rest:
+            nx = [p_ for p_ in rest if p_[1] == cur]
+            if len(nx) != 1:
+                okc = False
+                break
+            if nx[0][0] != p0:
+                bad.append(('task', 'a partition is handed on for a different task than the sub task being split'))
+            cur = nx[0][2]
+            rest.remove(nx[0])
+        if not okc or cur != e0:
+            if plain(*[x for p_ in pieces for x in p_[1:]]):
+                bad.append(('early-exit-cover', 'a path returns before the splitting loop having consumed %s of the range [%r, %r) it '
+                            'was given: the rest is neither queued nor run'
+                            % (', '.join('[%r, %r)' % (p_[1], p_[2]) for p_ in pieces) or 'nothing', s0, e0)))
+            else:
+                und.append('range consumed by an early return is not in a recognised form')
     for stop, st in paths:
         if stop != H.id:
             bad.append(('loop-exit', 'the splitting loop can be left from inside its body while [start, end) is not yet empty'))
@@ -3157,6 +3541,42 @@ def is_subtask_ptr(ct):
     return t.replace(' ', '') in ('enki::SubTaskSet*', 'SubTaskSet*')
 
 
+_RUN_HELPERS = {}
+
+
+def run_counted_helper(tu, cf, split_fn):
+    """index of the SubTaskSet parameter if the loop-free void helper cf, on every path, executes exactly that partition and
+    then decrements the running count of the same task once (nothing else with counts, pipes or partitions); else None"""
+    key_ = (id(tu), cf['id'])
+    if key_ in _RUN_HELPERS:
+        return _RUN_HELPERS[key_]
+    _RUN_HELPERS[key_] = None
+    g = tu.cfg(cf)
+    if g is None or cf.get('virt') or cf['dep'] or g.back_edges() or not cf.get('fty', '').startswith('void'):
+        return None
+    ks = [k for k, p_ in enumerate(cf['params']) if 'SubTaskSet' in (p_['ct'] or '')]
+    if len(ks) != 1:
+        return None
+    sp = param_path(cf['params'][ks[0]])
+    try:
+        paths = sym_paths(tu, g, g.entry, set(), Store(tu), make_split_summary(tu, split_fn))
+    except ValueError:
+        return None
+    p0 = Lin.atom(('init', sp + ('pTask',)))
+    s0 = Lin.atom(('init', sp + ('partition', 'start')))
+    e0 = Lin.atom(('init', sp + ('partition', 'end')))
+    if not paths:
+        return None
+    for stop, st in paths:
+        ev = [e for e in st.events if e[0] not in ('branch',)]
+        if [e[0] for e in ev] != ['exec', 'dec']:
+            return None
+        if ev[0][2] is None or ev[0][2] != (p0, s0, e0) or ev[1][2] != p0:
+            return None
+    _RUN_HELPERS[key_] = ks[0]
+    return ks[0]
+
+
 class AcqFlow:
     """Flow of 'a partition was obtained from a pipe' through a function: acquisition sites are pipe reads or verified
     acquire-helpers; their Boolean result is either stored in one flag variable or tested directly by a branch."""
@@ -3261,6 +3681,11 @@ class AcqFlow:
                     return [(v, tok, exe, nid)]
                 return [('T', min(tok + 1, 2), exe, None), ('F', tok, exe, None)]
             k = events.get(nid)
+            if k == 'execdec':
+                if tok == 0:
+                    probs.add(('exec-without-task', 'a partition is run on a path where none was obtained from a pipe'))
+                    return [st]
+                return [(v, tok - 1, exe, pend)]
             if k == 'exec':
                 if tok == 0:
                     probs.add(('exec-without-task', 'ExecuteRange is reached on a path where no partition was obtained from a pipe'))
@@ -3386,8 +3811,11 @@ def check_try_run_task(ctx, tu, split_fn, requeue_takes_count=False):
                 events[n['id']] = 'exec'
             else:
                 ev = running_count_event(tu, n)
+                cf_ = tu.callee_fn(n)
                 if ev:
                     events[n['id']] = ev[0]
+                elif cf_ is not None and run_counted_helper(tu, cf_, split_fn) is not None:
+                    events[n['id']] = 'execdec'     # helper: ExecuteRange of the partition it is given + one decrement
     probs = set()
     exits, returns = flow.explore(events, probs)
     for v, tok, exe in exits:
@@ -3399,7 +3827,7 @@ def check_try_run_task(ctx, tu, split_fn, requeue_takes_count=False):
                        'never reaches 0 and the join never returns'))
     # ---- exact cover and same-task pairing in the region entered after a successful read
     dom = g.dominators()
-    ev_blocks = {g.where(i)[0] for i, k in events.items() if k in ('exec', 'dec')}
+    ev_blocks = {g.where(i)[0] for i, k in events.items() if k in ('exec', 'dec', 'execdec')}
     guards = []
     for blk in g.blocks.values():
         ts = flow.success_succ(blk)
